@@ -674,7 +674,7 @@ class C08(Prop):
     id = "C08"
     streams = srv_streams("mix", {"R", "H", "F", "A", "K", "N", "Q", "W", "I", "C", "Z"})
     determined = False
-    solo_cases_quick = 80
+    solo_cases_quick = 400
     solo_cases_thorough = 3000
     rule = ("random interleavings of init / new_backtest / insert / delete / tick / fetch / now / info over backtest ids 0..4 (some never "
             "created), one or two datasets plus an unknown dataset name, on both AppStates; for a sample of cases every backtest's "
